@@ -6,12 +6,12 @@ from lib import gpgen
 from py2v import units_gp
 
 PROP = "C02"
-PROPS_FILES = ["Props/C02.v", "Props/C02_poly.v", "Props/C02_se_psd.v"]
+PROPS_FILES = ["Props/C02.v", "Props/C02_poly.v", "Props/C02_se_psd.v", "Props/C02_matern_psd.v"]
 ASSUMPTIONS = [
   "exact arithmetic over an abstract real field; 'up to conditioning-scaled rounding' is outside the model (searcher tolerance 1e-8 * cond)",
   "LAPACK contract: a successful cho_factor/cho_solve returns A^-1 b, solve_triangular with the Cholesky factor returns (chol A)^-1 b, chol A (chol A)^T = A",
-  "positive semi-definiteness of the joint kernel Gram matrix is a hypothesis of the PSD clause for the Matern kernels (see C03); for the SquareExponential kernel it is DISCHARGED: Props/C02_se_psd.v instantiates "
-  "the abstract-field theorems at Coq's R (Lib/RStruct.v), identifies the joint block matrix with the regenerated SE Gram matrix of the concatenated point set and applies C03's n x n PSD theorem - the posterior "
+  "positive semi-definiteness of the joint kernel Gram matrix is DISCHARGED for all four kernels (it is a hypothesis only of the abstract-field statement): Props/C02_se_psd.v and Props/C02_matern_psd.v instantiate "
+  "the abstract-field theorems at Coq's R (Lib/RStruct.v), identify the joint block matrix with the regenerated Gram matrix of the concatenated point set and apply C03's n x n PSD theorems - the posterior "
   "covariance (noise, nugget, zero mean) is PSD and the pointwise variance non-negative before the floor, with only the Cholesky contract left; those theorems depend on the standard-library real-number / classical / epsilon axioms",
   "the posterior variance is k(x,x) - k*^T K^-1 k* as the library defines it (no correction for the estimated mean)",
 ]
